@@ -53,6 +53,7 @@ type Enc struct {
 	epochCtr  int
 	strConsts map[string]int
 	typeIDs   map[string]int
+	afterHavoc func(now, before *State)
 	typeObjs  map[int]types.Type       // concrete types by id
 	implIface map[string]types.Type    // impl_<I> predicate -> interface type
 	usedSpecs map[string]bool
@@ -595,6 +596,10 @@ func (s *State) havocAllKeepLocks() {
 }
 
 func (s *State) havocAll() {
+	var before *State
+	if s.enc.afterHavoc != nil {
+		before = s.clone()
+	}
 	s.enc.epochCtr++
 	s.epoch = s.enc.epochCtr
 	s.heap = map[string]Term{}
@@ -604,6 +609,10 @@ func (s *State) havocAll() {
 	s.assume(Ge(nh, s.hwm))
 	s.hwm = nh
 	s.enc.epochHwm[s.epoch] = nh
+	// package invariants over initialise-once globals hold at all times after init (ginv.go)
+	if s.enc.afterHavoc != nil {
+		s.enc.afterHavoc(s, before)
+	}
 }
 
 func (s *State) alloc() Term {
